@@ -284,13 +284,27 @@ def check_C09(tier):
                            "never-issued ids, on the real ServerSession; each call judged by SrvStep")
 
 
+def check_C10(tier):
+    out = Outcome("C10", tier, "model_checking")
+    wd = vlib.workdir("C10")
+    r = vlib.model_check("MC_Client.tla", "MC_Client_full.cfg" if tier == "quick" else "MC_Client_big.cfg", wd, timeout=1500)
+    out.add_s1(r, "MC_Client (every history over the small alphabet; observation-driven history state restates C10)")
+    logs = sess_logs(wd, "client", "hist", tier)
+    sess_validate(out, "Trace_Client.tla", logs, wd, lambda v: v["class"] == "CLI", "c10")
+    sample_events(out, logs[0][0], ("In", "Call"), n=3)
+    out.assumptions = SESS_ASSUME
+    return out.finish(rule="random histories over every public call in every state and every server message class (results/errors "
+                           "with current, stale and never-issued transaction ids, with/without stream id; onStatus known/unknown/"
+                           "malformed; media on the active or another stream), on the real ClientSession; each call judged by CliStep")
+
+
 def check_C17(tier):
     out = Outcome("C17", tier, "model_checking")
     wd = vlib.workdir("C17")
     r = vlib.model_check("AckFlat.tla", "AckFlat_tlc.cfg", wd)
     out.add_s1(r, "AckFlat (TLC, windows 1..6, call sizes 0..8)")
-    a1 = vlib.apalache("AckFlat.tla", wd, ["--cinit=CInit", "--init=Init", "--inv=Inv", "--next=NextSym", "--length=0"])
-    a2 = vlib.apalache("AckFlat.tla", wd, ["--cinit=CInit", "--init=IndInit", "--inv=Inv", "--next=NextSym", "--length=1"])
+    a1 = vlib.apalache("AckFlatApa.tla", wd, ["--cinit=CInit", "--init=Init", "--inv=Inv", "--next=NextSym", "--length=0"])
+    a2 = vlib.apalache("AckFlatApa.tla", wd, ["--cinit=CInit", "--init=IndInit", "--inv=Inv", "--next=NextSym", "--length=1"])
     out.cov["apalache"] = {"inductive_invariant": "Inv (Conservation, Outstanding, ExactlyWhen, NothingBefore) for all windows "
                            "1..2^32-1 and all call sizes: Init => Inv and Inv /\\ Next => Inv'", "wall_s": round(a1["wall"] + a2["wall"], 1)}
     logs = sess_logs(wd, "server", "ack", tier) + sess_logs(wd, "client", "ack", tier)
